@@ -19,6 +19,7 @@ import (
 	"math/rand"
 	"strings"
 	"sync"
+	"sync/atomic"
 	"testing"
 	"time"
 
@@ -78,6 +79,9 @@ type c04Wrap struct {
 	Registered bool
 	Notified   []c04Note
 	Block      int64 // -1 none, 0 for ever, else nanoseconds (rounded up to a minute); -3 not observable
+	Closed     bool  // the transport connection to the subject is gone (seen from the remote's host)
+	Record     *c04Note // registered remotes: what a follow-up Connect returns (isConnected short cut)
+	SecondHs   bool     // that follow-up Connect started another handshake
 }
 
 type c04Note struct {
@@ -86,7 +90,7 @@ type c04Note struct {
 }
 
 type c04Obs struct {
-	Res      int // 0 enrolled, 1..7 refusal class, 8 refused (class not visible), 9 panic
+	Res      int // 0 enrolled, 1..7 refusal class, 8 refused (class not visible), 9 panic, 10 exchange did not complete
 	Addr     []byte
 	Role     int64
 	Written  []c04W
@@ -468,8 +472,13 @@ func c04CoqCase(id int, in c04In, obs c04Obs) string {
 		for _, n := range obs.Wrap.Notified {
 			notes = append(notes, coqPair(coqBytes(n.Addr), coqZ(n.Role)))
 		}
+		rec := "None"
+		if r := obs.Wrap.Record; r != nil {
+			rec = "(Some " + coqPair(coqBytes(r.Addr), coqZ(r.Role)) + ")"
+		}
 		wrap = "(Some " + coqRecord("w_registered", coqBool(obs.Wrap.Registered), "w_notified", coqList(notes),
-			"w_block", coqZ(obs.Wrap.Block)) + ")"
+			"w_block", coqZ(obs.Wrap.Block), "w_closed", coqBool(obs.Wrap.Closed), "w_record", rec,
+			"w_second_hs", coqBool(obs.Wrap.SecondHs)) + ")"
 	}
 	cfg := coqRecord("own_type", coqZ(int64(in.OwnType)), "own_token", coqStr(in.OwnToken),
 		"own_addr", coqBytes(l.addr), "own_sig", coqBytes(l.ownSig))
@@ -686,8 +695,41 @@ func c04E2EStep(svc *libp2p.Service, nt *c04Notifier, reg *c04Registry, in c04In
 	ctx, cancel := context.WithTimeout(context.Background(), time.Duration(10*slow)*time.Second)
 	defer cancel()
 
+	var hsCount int32
+	incomplete := false
+	advInfo, err := (&peer.AddrInfo{ID: adv.ID(), Addrs: adv.Addrs()}).MarshalJSON()
+	if err != nil {
+		return obs, err
+	}
+	// after the exchange: is the transport connection gone ("the connection refused"), and what does the
+	// registry hold (read back through a follow-up Connect, which must take the isConnected short cut)
+	aftermath := func(w *c04Wrap) {
+		gone := func() bool { return len(adv.Network().ConnsToPeer(subjID)) == 0 }
+		if obs.Res != 0 {
+			until := time.Now().Add(time.Duration(3*slow) * time.Second)
+			for !gone() && time.Now().Before(until) {
+				time.Sleep(2 * time.Millisecond)
+			}
+		}
+		w.Closed = gone()
+		if w.Registered {
+			n0 := atomic.LoadInt32(&hsCount)
+			lk := reg.taken()
+			if p, err := svc.Connect(ctx, advInfo); err == nil {
+				w.Record = &c04Note{Addr: p.EthAddress.Bytes(), Role: int64(p.Type)}
+			} else {
+				obs.Note += " follow-up Connect: " + err.Error()
+			}
+			w.SecondHs = atomic.LoadInt32(&hsCount) != n0 || len(reg.taken()) != len(lk)
+		}
+	}
+
 	if in.Mode == 1 {
 		// the remote dials the subject and plays the script in lock step
+		adv.SetStreamHandler(handshake.ProtocolID(), func(s network.Stream) {
+			atomic.AddInt32(&hsCount, 1) // only a follow-up Connect that does not take the short cut gets here
+			_ = s.Reset()
+		})
 		if err := adv.Connect(ctx, peer.AddrInfo{ID: subjID, Addrs: subjAddrs}); err != nil {
 			return obs, fmt.Errorf("adversary cannot connect: %w", err)
 		}
@@ -718,7 +760,7 @@ func c04E2EStep(svc *libp2p.Service, nt *c04Notifier, reg *c04Registry, in c04In
 					break wait
 				}
 			case <-deadline:
-				obs.Note = "no completion signal"
+				incomplete = true
 				break wait
 			}
 		}
@@ -740,15 +782,24 @@ func c04E2EStep(svc *libp2p.Service, nt *c04Notifier, reg *c04Registry, in c04In
 		default:
 			obs.Res = 8
 		}
+		if incomplete {
+			obs.Res = 10
+		}
 		obs.Written = frames.taken()
 		obs.Lookups = reg.taken()
+		aftermath(w)
 		return obs, nil
 	}
 
 	// Mode 2: the subject dials the remote, whose handler plays the script in lock step
 	done := make(chan struct{})
+	var once sync.Once
 	adv.SetStreamHandler(handshake.ProtocolID(), func(s network.Stream) {
-		defer close(done)
+		defer once.Do(func() { close(done) })
+		if atomic.AddInt32(&hsCount, 1) > 1 {
+			_ = s.Reset() // a follow-up Connect that did not take the short cut
+			return
+		}
 		_ = s.SetDeadline(time.Now().Add(time.Duration(5*slow) * time.Second))
 		if !c04ReadOne(s, frames) {
 			return
@@ -758,15 +809,11 @@ func c04E2EStep(svc *libp2p.Service, nt *c04Notifier, reg *c04Registry, in c04In
 		}
 		c04ReadOne(s, frames)
 	})
-	info, err := (&peer.AddrInfo{ID: adv.ID(), Addrs: adv.Addrs()}).MarshalJSON()
-	if err != nil {
-		return obs, err
-	}
-	p, cerr := svc.Connect(ctx, info)
+	p, cerr := svc.Connect(ctx, advInfo)
 	select {
 	case <-done:
 	case <-time.After(time.Duration(6*slow) * time.Second):
-		obs.Note = "handler did not finish"
+		incomplete = true
 	}
 	switch {
 	case cerr == nil:
@@ -780,9 +827,13 @@ func c04E2EStep(svc *libp2p.Service, nt *c04Notifier, reg *c04Registry, in c04In
 	default:
 		obs.Res = 8
 	}
+	if incomplete {
+		obs.Res = 10
+	}
 	obs.Wrap = &c04Wrap{Registered: registered(), Notified: nt.taken(), Block: c04BlockOf(svc, advAddr)}
 	obs.Written = frames.taken()
 	obs.Lookups = reg.taken()
+	aftermath(obs.Wrap)
 	return obs, nil
 }
 
